@@ -31,6 +31,10 @@ type c09case struct {
 	// Monotonic: the creation time carries a monotonic clock reading, as a
 	// time obtained from time.Now() does (same instant, local zone)
 	Monotonic bool `json:"monotonic,omitempty"`
+	// Sharing: glyphs added to the font that share memory with its glyphs
+	// (the same glyph under a second name, an outline or stem list that
+	// continues another glyph's backing array)
+	Sharing []t1gen.Sharing `json:"sharing,omitempty"`
 }
 
 // withMonotonic returns the same instant as a time derived from time.Now():
@@ -90,12 +94,13 @@ func roundTrip(f *type1.Font, format type1.FileFormat) string {
 }
 
 func check(c *c09case) string {
+	f := t1gen.ApplySharing(c.Font, c.Sharing)
 	if c.Monotonic {
-		g := *c.Font
-		g.CreationDate = withMonotonic(c.Font.CreationDate)
+		g := *f
+		g.CreationDate = withMonotonic(f.CreationDate)
 		return roundTrip(&g, c.Format)
 	}
-	return roundTrip(c.Font, c.Format)
+	return roundTrip(f, c.Format)
 }
 
 func baseFont() *type1.Font {
@@ -155,7 +160,7 @@ func findings(rec *ev.Rec) t1gen.FontOpts {
 func TestP1RoundTrip(t *testing.T) {
 	rec := ev.New("C09", "roundtrip")
 	defer rec.Finish(t)
-	rec.Rule("*type1.Font values: 1-13 glyphs incl. .notdef; names over regular characters (StandardEncoding names, random names incl. bytes >= 0x80, operator-like names); integer advance widths incl. int32 extremes, optional WidthY; 0-3 closed contours of lines/curves (h/v/general shapes) with integer coordinates (incl. charstring-format boundaries) or fractional ones (k/q, 2-3 decimals); even-length stem lists over int16 incl. extremes; encoding absent / standard / standard with unassigned codes / explicit incl. names of absent glyphs; FontInfo strings over all 256 bytes; finite floats incl. 1e21, 5e-324, MaxFloat64; font matrix variants; private values at and away from defaults; creation time zero or any second of years 1-9999 with sub-second part, in UTC, named or unnamed fixed zones incl. non-hour offsets, or - for a quarter of the dates between 1850 and 2200 - as a value derived from time.Now() (same instant, carries a monotonic clock reading). x 4 formats (a quarter of the fonts also with no options / zero-valued options, i.e. the default format). Oracle: Read(Write(F)) deep-equals F after the property's own normalisation (encoding entries naming absent glyphs -> .notdef, time to the second; coordinates exact when all of a glyph's coordinates are integers, else 0.005). Non-trivial: >= 2 glyphs and >= 1 of {curve, fractional coordinate, stem, escaped string byte, non-standard encoding, non-default private value, non-UTC zone}; distinct by font content and format.")
+	rec.Rule("*type1.Font values: 1-13 glyphs incl. .notdef; names over regular characters (StandardEncoding names, random names incl. bytes >= 0x80, operator-like names); integer advance widths incl. int32 extremes, optional WidthY; 0-3 closed contours of lines/curves (h/v/general shapes) with integer coordinates (incl. charstring-format boundaries) or fractional ones (k/q, 2-3 decimals); even-length stem lists over int16 incl. extremes; encoding absent / standard / standard with unassigned codes / explicit incl. names of absent glyphs; FontInfo strings over all 256 bytes; finite floats incl. 1e21, 5e-324, MaxFloat64; font matrix variants; private values at and away from defaults; creation time zero or any second of years 1-9999 with sub-second part, in UTC, named or unnamed fixed zones incl. non-hour offsets, or - for a quarter of the dates between 1850 and 2200 - as a value derived from time.Now() (same instant, carries a monotonic clock reading). A quarter of the fonts gets 1-3 more glyphs that share memory with its glyphs (the same *Glyph under a second name; an outline or stem lists that continue another glyph's backing array with the same first element). x 4 formats (a quarter of the fonts also with no options / zero-valued options, i.e. the default format). Oracle: Read(Write(F)) deep-equals F after the property's own normalisation (encoding entries naming absent glyphs -> .notdef, time to the second; coordinates exact when all of a glyph's coordinates are integers, else 0.005). Non-trivial: >= 2 glyphs and >= 1 of {curve, fractional coordinate, stem, escaped string byte, non-standard encoding, non-default private value, non-UTC zone}; distinct by font content and format.")
 	opts := findings(rec)
 	ev.SetupRapid(15000, 500000)
 	rapid.Check(t, func(t *rapid.T) {
@@ -184,8 +189,12 @@ func TestP1RoundTrip(t *testing.T) {
 			mono = true
 			rec.Class("creation-time-with-monotonic-reading")
 		}
+		sharing := t1gen.GenSharing(t, f)
+		if len(sharing) > 0 {
+			rec.Class("glyphs-sharing-memory")
+		}
 		for _, format := range fs {
-			c := &c09case{Font: f, Format: format, Monotonic: mono}
+			c := &c09case{Font: f, Format: format, Monotonic: mono, Sharing: sharing}
 			rec.Eval(1)
 			if nt {
 				rec.NonTrivial(key + formatNames[format])
